@@ -2,7 +2,7 @@
 import sqlite3
 
 _con = None
-COLS = ["id", "a", "b", "c", "s", "u", "d", "flag", "f", "g", "dd"]
+COLS = ["id", "a", "b", "c", "s", "u", "d", "flag", "f", "g", "dd", "m"]
 
 
 def con():
@@ -10,7 +10,7 @@ def con():
     if _con is None:
         _con = sqlite3.connect(":memory:")
         _con.execute("CREATE TABLE t(id INTEGER PRIMARY KEY, a INTEGER, b INTEGER, c INTEGER, "
-                     "s TEXT, u TEXT, d TEXT, flag INTEGER, f REAL NOT NULL, g TEXT, dd TEXT)")
+                     "s TEXT, u TEXT, d TEXT, flag INTEGER, f REAL NOT NULL, g TEXT, dd TEXT, m NUMERIC)")
     return _con
 
 
@@ -28,7 +28,7 @@ def _adapt(v):
 def load(rows):
     c = con()
     c.execute("DELETE FROM t")
-    c.executemany("INSERT INTO t VALUES (?,?,?,?,?,?,?,?,?,?,?)",
+    c.executemany("INSERT INTO t VALUES (?,?,?,?,?,?,?,?,?,?,?,?)",
                   [tuple(_adapt(r.get(k)) for k in COLS) for r in rows])
     c.commit()
 
